@@ -139,6 +139,11 @@ def run_parse(binary, work, name, files, main='workflow.yaml', input_bytes=b'x: 
 def judge(ctx, r, what):
     rp = {'kind': 'parse-scenario', 'how': 'verifh parse <scenario>', 'scenario': r['scenario'], 'case': what}
     if r['code'] == 0 and r['result'] is not None:
+        res = r['result']
+        if ('parsed' in res or 'parse_err' in res) and ('parsed2' in res or 'parse2_err' in res) and bool(res.get('parsed')) != bool(res.get('parsed2')):
+            # the driver parses the same files a second time in the same process
+            ctx.add('C11', 'second-parse-of-the-same-files-gives-another-verdict', '%s: first %s, second %s' % (
+                what, 'accepted' if res.get('parsed') else 'rejected', 'accepted' if res.get('parsed2') else 'rejected'), rp)
         return True
     if r['result'] is not None and r['result'].get('watchdog'):
         ctx.add('C11', 'parsing-did-not-return', what, rp)
